@@ -359,4 +359,7 @@ def _nanvar_combine(a, axis=None, correction=None, **kwargs):
 
 def _nanvar_aggregate(a, correction=None, **kwargs):
     with np.errstate(divide="ignore", invalid="ignore"):
-        return nxp.divide(a["M2"], a["n"] - correction)
+        dof = a["n"] - correction
+        var = nxp.divide(a["M2"], dof)
+        # like NumPy, the result is nan where there are no degrees of freedom (e.g. an all-NaN slice)
+        return nxp.where(dof > 0, var, nxp.nan)
